@@ -106,6 +106,10 @@ class Lin:
             od = self.b.origin_def({"copy": {"local": l, "proj": []}})
             base = "self" if (od and od[0] == "param" and od[1] == 1) else "_%d" % l
             return {"field:%s.%s" % (base, ".".join(fs)): 1, 1: 0}
+        nd = [e for e in p["proj"] if e != "deref"]
+        if len(nd) == 2 and isinstance(nd[0], dict) and "downcast" in nd[0] and isinstance(nd[1], dict) and "field" in nd[1] and nd[0]["downcast"] in ("Some", "Continue", "Ok"):
+            # payload of an Option / ControlFlow / Result local: one symbol per holder
+            return {"pay:_%d.%s" % (l, nd[1]["field"]): 1, 1: 0}
         if p["proj"]:
             # `(*r)` where r is (a copy of) `&x` / a tuple field holding `&x`
             if all(e == "deref" or (isinstance(e, dict) and "field" in e) for e in p["proj"]) and depth > 2:
